@@ -43,6 +43,8 @@ def apply_op(objs, op, kind):
         objs[op["h"]] = objs[op["c"]].create_section(W.conc_name(op["n"]))
     elif n == "create_prop":
         objs[op["h"]] = objs[op["c"]].create_property(W.conc_name(op["n"]), values=[1])
+    elif n == "create_prop_badvals":
+        objs[op["h"]] = objs[op["c"]].create_property(W.conc_name(op["n"]), values=[1, "high"])
     elif n == "clone_attach":
         y = objs[op["x"]].clone(keep_id=op["keep"])
         if op["c"] != "none":
